@@ -18,6 +18,10 @@ func P(id int) {
 // Sync is called by the vsync shim: kind is "lock", "unlock", "once", "pool-get", "pool-put".
 var Sync func(kind string, obj any)
 
+// Note tells the scheduler about a synchronisation edge without being a scheduling point: kind is "acq" / "rel"
+// (exclusive), "racq" / "rrel" (shared), "once-done" / "once-seen", "pool-put" / "pool-get" (obj2 = the pooled object).
+var Note func(kind string, obj, obj2 any)
+
 // Hazard reports a misuse of shared state detected by the shim (double Put, double Get of one object…).
 var Hazard func(what string)
 `
@@ -44,6 +48,12 @@ func point(kind string, obj any) {
 	}
 }
 
+func note(kind string, obj, obj2 any) {
+	if vhook.Note != nil {
+		vhook.Note(kind, obj, obj2)
+	}
+}
+
 func hazard(what string) {
 	if vhook.Hazard != nil {
 		vhook.Hazard(what)
@@ -67,6 +77,7 @@ func (m *Mutex) Lock() {
 		point("lock-wait", m)
 	}
 	m.held = true
+	note("acq", m, nil)
 }
 
 func (m *Mutex) TryLock() bool {
@@ -78,6 +89,7 @@ func (m *Mutex) TryLock() bool {
 		return false
 	}
 	m.held = true
+	note("acq", m, nil)
 	return true
 }
 
@@ -89,6 +101,7 @@ func (m *Mutex) Unlock() {
 	if !m.held {
 		hazard("unlock of unlocked mutex")
 	}
+	note("rel", m, nil)
 	m.held = false
 	point("unlock", m)
 }
@@ -109,6 +122,7 @@ func (m *RWMutex) Lock() {
 		point("lock-wait", m)
 	}
 	m.w = true
+	note("acq", m, nil)
 }
 
 func (m *RWMutex) Unlock() {
@@ -116,6 +130,7 @@ func (m *RWMutex) Unlock() {
 		m.real.Unlock()
 		return
 	}
+	note("rel", m, nil)
 	m.w = false
 	point("unlock", m)
 }
@@ -130,6 +145,7 @@ func (m *RWMutex) RLock() {
 		point("lock-wait", m)
 	}
 	m.readers++
+	note("racq", m, nil)
 }
 
 func (m *RWMutex) RUnlock() {
@@ -137,6 +153,7 @@ func (m *RWMutex) RUnlock() {
 		m.real.RUnlock()
 		return
 	}
+	note("rrel", m, nil)
 	m.readers--
 	point("unlock", m)
 }
@@ -157,12 +174,14 @@ func (o *Once) Do(f func()) {
 		point("lock-wait", o)
 	}
 	if o.done {
+		note("once-seen", o, nil)
 		return
 	}
 	o.busy = true
 	f()
 	o.done = true
 	o.busy = false
+	note("once-done", o, nil)
 	point("once-done", o)
 }
 
@@ -191,6 +210,7 @@ func (p *Pool) Get() any {
 	if n := len(p.items); n > 0 {
 		x = p.items[n-1]
 		p.items = p.items[:n-1]
+		note("pool-get", p, key(x))
 	} else if p.New != nil {
 		x = p.New()
 	}
@@ -226,6 +246,7 @@ func (p *Pool) Put(x any) {
 			p.out[k]--
 		}
 	}
+	note("pool-put", p, key(x))
 	p.items = append(p.items, x)
 	point("pool-put", p)
 }
